@@ -73,7 +73,10 @@ def negotiation(c):
                     if not yes(e["tx"], a["tx"]) or not yes(e["rx"], a["rx"]):
                         report("addpath", case, {"what": f"add-path tx/rx={a['tx']}/{a['rx']} expected {e['tx']}/{e['rx']}", "side": side, "fam": f})
                     o = g[other][f]
-                    if a["tx"] != o["rx"] or a["rx"] != o["tx"]:
+                    oe = (case["er"] if side == "l" else case["el"])[f]
+                    undecided = "open" in (e["tx"], e["rx"], oe.get("tx"), oe.get("rx"))
+                    # (an end whose OWN list holds an undefined value is not a configuration that exists: no mirror is asked of it)
+                    if not undecided and (a["tx"] != o["rx"] or a["rx"] != o["tx"]):
                         report("mirror", case, {"what": "one end sends path ids the other does not expect", "side": side, "fam": f, "got": g})
                     if a["eff"] != a["tx"]:
                         report("sendmax", case, {"what": f"FSM effective send-max has the family={a['eff']} but the codec sends path ids={a['tx']}", "side": side, "fam": f})
